@@ -1,4 +1,5 @@
 import DimodProofs.VarsSteps
+import DimodProofs.VarsMore
 import DimodModel.LabelF
 
 /-! Proofs for `DimodModel/LabelF.lean`: the encoding is injective and `int`-preserving, the embedding of `Label` is
@@ -218,5 +219,86 @@ theorem runF_spec (ops : List OpF) (hwf : ∀ op ∈ ops, op.WF) :
       simp only [List.foldl_cons]
       exact ih _ _ hr.1 habs (LabelF.step_closed l hl op hop) (fun o ho => hw o (List.mem_cons_of_mem _ ho))
   exact gen ops empty [] inv_empty (by decide) (by simp) hwf
+
+end VState
+
+/-! ### the extended alphabet -/
+
+namespace LabelF
+
+theorem wf_enc2 (op : OpF2) (h : op.WF) : op.enc.WF := by
+  cases op <;> simp only [OpF2.enc, VState.Op2.WF]
+  exact wf_enc _ h
+
+theorem extend_closed (vs : List (Option LabelF)) (p : Bool) (l : List Label) (hl : ∀ x ∈ l, InImg x) :
+    ∀ x ∈ (LSpec.extend l (vs.map (Option.map enc)) p).1, InImg x := by
+  induction vs generalizing l with
+  | nil => simpa [LSpec.extend] using hl
+  | cons v t ih =>
+    simp only [List.map_cons, LSpec.extend]
+    split
+    · exact ih _ (step_closed l hl (.append v p) trivial)
+    · exact hl
+
+theorem step2_closed (l : List Label) (hl : ∀ x ∈ l, InImg x) (op : OpF2) (hwf : op.WF) :
+    ∀ x ∈ (LSpec.step2 l op.enc).1, InImg x := by
+  cases op with
+  | base op => exact step_closed l hl op hwf
+  | extend vs p => exact extend_closed vs p l hl
+  | copy => exact hl
+  | pickle => exact hl
+  | slice sl =>
+    simp only [OpF2.enc, LSpec.step2]
+    split
+    · rename_i l' hsl
+      intro x hx
+      simp only [LSpec.slice, Option.map_eq_some_iff] at hsl
+      obtain ⟨idx, _, rfl⟩ := hsl
+      exact hl x (SSM.mem_gather hx)
+    · exact hl
+
+end LabelF
+
+namespace VState
+
+theorem runF2_spec (ops : List OpF2) (hwf : ∀ op ∈ ops, op.WF) :
+    (runF2 ops).Inv ∧ (runF2 ops).abs = LSpec.runF2 ops ∧ ∀ x ∈ (runF2 ops).abs, LabelF.InImg x := by
+  have gen : ∀ (ops : List OpF2) (s : VState) (l : List Label), s.Inv → s.abs = l → (∀ x ∈ l, LabelF.InImg x) → (∀ op ∈ ops, op.WF) →
+      (ops.foldl (fun s op => (s.step2 op.enc).1) s).Inv ∧
+      (ops.foldl (fun s op => (s.step2 op.enc).1) s).abs = ops.foldl (fun l op => (LSpec.step2 l op.enc).1) l ∧
+      ∀ x ∈ (ops.foldl (fun s op => (s.step2 op.enc).1) s).abs, LabelF.InImg x := by
+    intro ops
+    induction ops with
+    | nil => intro s l hi ha hl _; exact ⟨hi, ha, by simpa [ha] using hl⟩
+    | cons op t ih =>
+      intro s l hi ha hl hw
+      have hop := hw op (List.mem_cons_self ..)
+      have hr := step2_refines s hi op.enc (LabelF.wf_enc2 op hop)
+      have habs : (s.step2 op.enc).1.abs = (LSpec.step2 l op.enc).1 := by
+        have := congrArg Prod.fst hr.2; simpa [ha] using this
+      simp only [List.foldl_cons]
+      exact ih _ _ hr.1 habs (LabelF.step2_closed l hl op hop) (fun o ho => hw o (List.mem_cons_of_mem _ ho))
+  exact gen ops empty [] inv_empty (by decide) (by simp) hwf
+
+/-- a sound state all of whose labels are encodings IS (the encoding of) a duplicate-free `LabelF` list, and `count` / `index`
+    of any `LabelF` label are membership / position in it -/
+theorem labelF_view (s : VState) (hinv : s.Inv) (himg : ∀ x ∈ s.abs, LabelF.InImg x) :
+    ∃ lF : List LabelF, lF.map LabelF.enc = s.abs ∧ lF.Nodup ∧ lF.length = s.stop ∧
+      (∀ v : LabelF, s.count v.enc = true ↔ v ∈ lF) ∧
+      (∀ (v : LabelF) (i : Nat), s.index? v.enc = some i ↔ lF[i]? = some v) := by
+  obtain ⟨lF, hlF⟩ := LabelF.exists_preimage _ himg
+  refine ⟨lF, hlF, ?_, ?_, ?_, ?_⟩
+  · have hn := abs_nodup _ hinv
+    rw [← hlF, List.Nodup, List.pairwise_map] at hn
+    exact List.Pairwise.imp (fun hne he => hne (by rw [he])) hn
+  · have := abs_length s
+    rw [← hlF, List.length_map] at this; exact this
+  · intro v
+    rw [count_iff _ hinv, ← hlF]; exact LabelF.mem_map_enc lF v
+  · intro v i
+    rw [index?_eq_some_iff _ hinv, ← hlF, List.getElem?_map]
+    cases lF[i]? with
+    | none => simp
+    | some w => simp [LabelF.enc_eq_iff]
 
 end VState
